@@ -24,6 +24,7 @@ theorem acq_f_cases (s s' : St) (a : Actor) (hs : stepAcq s a false = some s') :
     (s.pc a = .testCalled ∧ s.ready = true ∧ s' = lockAs s a .testCS1) ∨
     (s.pc a = .testCalled ∧ s.ready = false ∧ s' = lockAs s a .testCS0) ∨
     (s.pc a = .resetCalled ∧ s' = setPc { s with lock := some a, ready := false, epoch := s.epoch + 1 } a .resetCS) ∨
+    (s.pc a = .freeCalled ∧ s.q = [] ∧ s' = setPc { s with lock := some a } a .freeCS) ∨
     (s.pc a = .waiting ∧ s.kind a ≠ .ult ∧ s' = setPc { s with lock := some a } a .reW) ∨
     (s.pc a = .woken ∧ s.kind a ≠ .ult ∧ s' = setPc { s with lock := some a } a .reR) := by
   unfold stepAcq at hs
@@ -40,7 +41,7 @@ theorem inv_stepAcq_f (s s' : St) (a : Actor) (h : Inv s) (hs : stepAcq s a fals
     | nil => rfl
     | cons x t => have := (h.noLost (by rw [hq]; simp) hr).1; exact absurd hl this
   rcases acq_f_cases s s' a hs with ⟨hp, hr, rfl⟩ | ⟨hp, hr, rfl⟩ | ⟨hp, hr, rfl⟩ | ⟨hp, hr, rfl⟩ | ⟨hp, hr, rfl⟩ |
-      ⟨hp, hr, rfl⟩ | ⟨hp, rfl⟩ | ⟨hp, hk, rfl⟩ | ⟨hp, hk, rfl⟩ <;> constructor <;> inv_tac h
+      ⟨hp, hr, rfl⟩ | ⟨hp, rfl⟩ | ⟨hp, hq0, rfl⟩ | ⟨hp, hk, rfl⟩ | ⟨hp, hk, rfl⟩ <;> constructor <;> inv_tac h
 
 theorem chk_some (s s' : St) (r e : Bool) (hs : chk s r e = some s') : s' = s ∧ r = s.ready ∧ e = s.q.isEmpty := by
   unfold chk at hs
